@@ -17,7 +17,7 @@ RULE = ("random histories of <=12 editing operations (construct incl. stripped c
 ASSUMPTIONS = ["string semantics of each operation as coded in rv/model/textmodel.py (Python str methods, "
                "cell-based cropping per the reference width table)",
                "styles of characters newly created by padding, truncation and tab expansion are not constrained"]
-REQUIRED = ["mon.plain", "mon.len", "mon.char_styles", "mon.style_only_ops", "mon.aliasing", "mon.len_unobserved", "mon.unobserved_history_end"]
+REQUIRED = ["mon.history_after_constructor_spans_beyond_the_end", "mon.plain", "mon.len", "mon.char_styles", "mon.style_only_ops", "mon.aliasing", "mon.len_unobserved", "mon.unobserved_history_end"]
 MIN_NONTRIVIAL = {"quick": 3000, "thorough": 100000}
 
 _console = None
@@ -559,9 +559,14 @@ def wl_histories(ctx, rng, case_no):
             if not compare(ctx, probe, m, [["construct", m.plain, repr(probe.spans), str(probe.style)]], "construct"):
                 ctx.case_done(("h", repr(probe.spans), m.plain), False)
                 return
-        shared = list(t.spans)
+        # the history goes on with a text that was handed such spans: they style nothing now, and characters that
+        # arrive later (append, pad, set_length ...) are not theirs either - every character keeps the style it had
+        shared = list(t.spans) + (extra if case_no % 2 else [])
+        if extra and case_no % 2:
+            ctx.count("mon.history_after_constructor_spans_beyond_the_end")
         t = Text(m.plain, style=t.style, spans=shared, tab_size=m.tab, overflow=m.overflow)
-        sibling = (Text("sibling text!", spans=shared), [Span(s.start, s.end, s.style) for s in shared])
+        sib = Text("sibling text!", spans=shared)
+        sibling = (sib, [Span(s.start, s.end, s.style) for s in sib.spans])
     log = [["construct", m.plain, repr(t.spans), str(t.style)] + (["spans-list-shared-with-a-second-Text"] if sibling else [])]
     if not compare(ctx, t, m, log, "construct"):
         ctx.case_done(("h", repr(log)), False)
